@@ -192,6 +192,13 @@ def c16_scenarios(tier):
     for n in ([2, 5, 13] if tier == "quick" else [2, 3, 5, 13, 34]):
         for lis in (["--stdout", "--stderr"], ["--stdout", "-t", "g00", "g01"], ["--stderr", "-t", "g00"]):
             out.append(("c16", {"n": n, "pos": "middle", "ncmd": 1, "listener": lis}, {}))
+    # some members of the group do not define the command (first / middle / last in declaration order, several)
+    for n in ([3, 6, 24] if tier == "quick" else [3, 4, 6, 13, 24, 48]):
+        for undef in ([0], [n // 2], [n - 1], [0, 1], [0, n // 2, n - 1]):
+            if len(undef) < n - 1:
+                out.append(("c16", {"n": n, "pos": "middle", "ncmd": 1, "undef": undef}, {}))
+                if n <= 6:
+                    out.append(("c16", {"n": n, "pos": "only", "ncmd": 2, "undef": undef}, {}))
     # with a history: an earlier run of the same command in the same repository in which one member
     # of the group failed (first / middle / last member), or in which everything succeeded
     for n in ([2, 5, 24] if tier == "quick" else [2, 3, 5, 13, 24, 48]):
@@ -245,6 +252,10 @@ def c16_task(desc):
                 t["commands"] = {"path": "tools"}
             for c in cmds:
                 modes[(t["path"], c)] = None
+    for i in desc.get("undef") or []:
+        # members of the group that do not define the command(s) at all
+        for c in cmds:
+            modes[(group[i], c)] = None
     sn = sched.Scenario("group%d/%s/%dcmd" % (n, pos, ncmd), ts, modes, ["-c"] + cmds, cmds)
     s = sc.Scratch("c16")
     try:
@@ -274,7 +285,8 @@ def c16_task(desc):
             blocked = False
             for cmd in cmds:
                 for g in groups:
-                    want = {(cmd, t) for t in g}
+                    undef_names = {group[i] for i in (desc.get("undef") or [])}
+                    want = {(cmd, t) for t in g if t not in undef_names}
                     # nobody is released until the whole group has arrived (each member "waits
                     # until all the others have started")
                     ok = c.wait(lambda: {sched.pair_of(r, ch) for ch in c.waiting()} >= want or p.done(), 10)
@@ -303,7 +315,7 @@ def c16_task(desc):
                     blocked = True  # statuses / exit code are C06's subject
                 else:
                     succ = sum(1 for res in doc["results"] for grp in res["target_groups"] for v in grp.values() if v["status"] == "success")
-                    if succ != len(ts) * ncmd:
+                    if succ != (len(ts) - len(desc.get("undef") or [])) * ncmd:
                         viol.append(("wrong-success-count", "%d success entries, expected %d" % (succ, len(ts) * ncmd)))
             return {"evaluations": 1, "nontrivial": 1 if rendezvous >= ncmd else 0, "blocked": 1 if blocked else 0,
                     "violations": [{"sig": sig, "detail": d, "rank": n, "case": {"c16": desc}} for sig, d in viol],
